@@ -24,3 +24,4 @@ def check(run):
     run.assumptions.append("NOT decided: acceptance by a real SQLite engine beyond these structural conditions (name resolution, typing), "
                            "returned rows, table contents, affected-row counts")
     
+    run.delegate("C06", "which rows an UPDATE / DELETE / SELECT touches is decided by the condition tree that C06 decides")
